@@ -31,6 +31,12 @@ GENERATED = [
     ("update t set a = s.b from s where t.id = s.id", "ansi"),
     ("merge into t using s on t.id = s.id when matched then update set t.a = s.a when not matched then insert (id, a) values (s.id, s.a)", "ansi"),
     ("insert into a select x from b; insert into b select x from a", "ansi"),
+    # the middle table of a chain is also read by a SELECT-only statement; one of its columns is not consumed downstream
+    ("insert into mid select a, b from s; select count(*) from mid; insert into tgt select a from mid", "ansi"),
+    ("select * from mid; insert into mid select a, b from s; insert into tgt select a from mid", "ansi"),
+    # late resolution of an unqualified column against several candidates (owners of the repaired columns)
+    ("create table m1 as select id, a from s1; create table m2 as select id, b from s2; insert into tgt select id, a, b from m1 join m2 using (id)", "ansi"),
+    ("insert into mid select a from s; insert into tgt select a from mid join other on mid.k = other.k", "ansi"),
     ("update tmp_rates set rate = base_rate; drop table tmp_rates", "ansi"),
     ("create table t (a int, b int); drop table t", "ansi"),
     ("insert into t (a) values (1); drop table t", "ansi"),
